@@ -256,7 +256,7 @@ func (b *RaftBackend) newTransaction(ctx context.Context, writable bool) (*RaftT
 			lowestActiveIndex := b.fsm.fastTxnTracker.lowestActiveIndex()
 
 			b.l.RLock()
-			lowestActiveIndex = min(lowestActiveIndex, b.raft.AppliedIndex()) // we need to cap the lowest active index, otherwise we might miss transaction started later
+			lowestActiveIndex = min(lowestActiveIndex, b.fsm.latestIndex.Load()) // cap with the state machine's index (see applyLog), otherwise we might miss transaction started later
 			b.l.RUnlock()
 
 			b.fsm.fastTxnTracker.clearOldEntries(lowestActiveIndex)
@@ -801,7 +801,7 @@ func (t *RaftTransaction) Rollback(ctx context.Context) error {
 			lowestActiveIndex := t.b.fsm.fastTxnTracker.lowestActiveIndex()
 
 			t.b.l.RLock()
-			lowestActiveIndex = min(lowestActiveIndex, t.b.raft.AppliedIndex()) // we need to cap the lowest active index, otherwise we might miss transaction started later
+			lowestActiveIndex = min(lowestActiveIndex, t.b.fsm.latestIndex.Load()) // cap with the state machine's index (see applyLog), otherwise we might miss transaction started later
 			t.b.l.RUnlock()
 
 			t.b.fsm.fastTxnTracker.clearOldEntries(lowestActiveIndex)
